@@ -25,6 +25,8 @@ type Timing struct {
 	CancelAt int      `json:"cancelAt,omitempty"`
 	// StopAtCancel: the consumer gives up at the cancel (nobody receives afterwards)
 	StopAtCancel bool `json:"stopAtCancel,omitempty"`
+	// Slow: the step function of Emit takes Slow[i mod len] quarters of a tick (virtual time) for index i
+	Slow []int `json:"slow,omitempty"`
 }
 
 type stamped struct {
@@ -255,6 +257,11 @@ func runGenerator(sc *Scenario) (res Result) {
 	e.ctx, e.cancel = context.WithCancel(context.Background())
 	unit := sc.unit()
 	freq := time.Duration(max(sc.Freq, 1)) * unit
+	if len(sc.T.Slow) > 0 {
+		e.slow = func(i int) time.Duration {
+			return freq * time.Duration(sc.T.Slow[((i%len(sc.T.Slow))+len(sc.T.Slow))%len(sc.T.Slow)]) / 4
+		}
+	}
 	var out <-chan int
 	var exx <-chan error
 	if sc.Stage == "emit" {
@@ -449,7 +456,7 @@ func runGenerator(sc *Scenario) (res Result) {
 					return fmt.Sprintf("emit: f was called with %v, want 0,1,2,... each once", e.callLog)
 				}
 			}
-			if len(sc.T.Consume) == 0 && len(sc.Fail) == 0 {
+			if len(sc.T.Consume) == 0 && len(sc.Fail) == 0 && len(sc.T.Slow) == 0 {
 				// a consumer that keeps up receives one value per tick
 				for j := 1; j < len(got); j++ {
 					if cancelled && got[j].at > time.Duration(sc.T.CancelAt)*unit {
